@@ -718,8 +718,8 @@ def a2_free_list_provenance(prog):
                 if e['k'] == 'call' and e.get('vals') and is_free_of(e['vals'][0], me):
                     if e['name'] == 'clone_from' and e['f'].get('trait') == 'core::clone::Clone':
                         ops.append(('copy' if len(e['vals']) > 1 and is_free_of(e['vals'][1], src) else 'other', e))
-                    elif 'VecDeque' in e['path'] and e['name'] in ('push_back', 'push_front', 'clear', 'extend', 'insert', 'retain', 'truncate', 'pop_front', 'pop_back', 'append', 'drain', 'remove', 'swap_remove_back', 'swap_remove_front', 'resize', 'split_off', 'retain_mut', 'extend_from_slice'):
-                        ops.append((e['name'], e))
+                    elif 'VecDeque' in e['path'] and e['name'] not in ('len', 'is_empty', 'iter', 'get', 'front', 'back', 'contains', 'capacity', 'as_slices', 'clone', 'eq', 'ne', 'reserve', 'reserve_exact', 'try_reserve', 'shrink_to_fit', 'shrink_to', 'range', 'binary_search', 'fmt', 'hash'):
+                        ops.append((e['name'], e))      # anything else may reorder or change the queue
                     elif e['name'] == 'extend' and e['f'].get('trait') == 'core::iter::Extend':
                         ops.append(('extend', e))
                 elif e['k'] == 'store' and not e.get('synthetic') and is_free_of(e['loc'], me):
